@@ -43,6 +43,7 @@ LS = "src/betterproto/lib/std/google/protobuf/__init__.py"
 LP = "src/betterproto/lib/pydantic/google/protobuf/__init__.py"
 
 EXPECTED_MISSES = {
+    "C19-4": "regex word-splitting change (digit boundary): same clause as C19-1, not decided",
     "C19-1": "regex word-splitting change: the key-retraction clause of C19 is a property of regular-expression semantics and is not decided (DESIGN section 7)",
 }
 
@@ -67,7 +68,10 @@ FIRE: List[Tuple[str, str, str, List[Tuple[str, str, str]]]] = [
     ("varint-eof-unchecked", "C16", "N3", [(I, "        if not b:\n            raise EOFError(\"Stream ended unexpectedly while attempting to load varint.\")\n", "")]),
     ("payload-read-unchecked", "C17", "M3", [(I, "            decoded = _read_exact(stream, 8)", "            decoded = stream.read(8)")]),
     ("invalid-wire-type-accepted", "C17", "M1", [(I, "            decoded = _read_exact(stream, 4)\n            raw += decoded\n        else:\n            raise ValueError(f\"Unsupported wire type {wire_type} in field {number}.\")", "            decoded = _read_exact(stream, 4)\n            raw += decoded")]),
-    ("mismatch-check-dropped", "C17", "M4", [(I, "            if not _wire_type_matches(parsed.wire_type, meta.proto_type):", "            if False:")]),
+    ("mismatch-check-dropped", "C17", "M4", [(I, "            if not _wire_type_matches(parsed.wire_type, meta.proto_type, repeated):", "            if False:")]),
+    ("packed-into-singular", "C17", "M4", [(I, "            repeated = proto_meta.default_gen[field_name] is list\n", "            repeated = True\n")]),
+    ("empty-map-entry-dropped", "C01", "T4", [(I, "                            sk + sv,\n                            # An entry with default key and value is still an entry.\n                            serialize_empty=True,", "                            sk + sv,")]),
+    ("empty-map-entry-not-counted", "C09", "L1", [(I, "                        meta.number, meta.proto_type, sk + sv, serialize_empty=True\n", "                        meta.number, meta.proto_type, sk + sv\n")]),
     ("delimited-advance-at-size", "C10", "S1", [(I, "        while size is None or read < size:\n            parsed = next(fields, None)", "        while size is None or read <= size:\n            parsed = next(fields, None)")]),
     ("prefix-not-len", "C10", "L5", [(I, "            dump_varint(len(self), stream)", "            dump_varint(len(self._unknown_fields), stream)")]),
     ("optional-default-skipped", "C06", "D2", [(I, "            selected_in_group = bool(meta.group) or meta.optional\n\n            # Empty messages can still be sent on the wire if they were\n            # set (or received empty).\n            serialize_empty = isinstance(value, Message) and value._serialized_on_wire\n\n            include_default_value_for_oneof = self._include_default_value_for_oneof(\n                field_name=field_name, meta=meta\n            )\n\n            if value == self._get_field_default(field_name) and not (\n                selected_in_group or serialize_empty or include_default_value_for_oneof\n            ):\n                # Default (zero) values are not serialized. Two exceptions are\n                # if this is the selected oneof item or if we know we have to\n                # serialize an empty message (i.e. zero value was explicitly\n                # set by the user).\n                continue\n\n            if isinstance(value, list):\n                if meta.proto_type in PACKED_TYPES:\n                    # Packed lists look like a length-delimited field. First,\n                    # preprocess/encode each value into a buffer and then\n                    # treat it like a field of raw bytes.\n                    buf = bytearray()\n                    for item in value:\n                        buf += _preprocess_single(meta.proto_type, \"\", item)\n                    stream.write(",
@@ -123,6 +127,7 @@ CODEC = ["C01", "C02", "C06", "C08", "C09", "C10", "C16", "C17", "C20"]
 
 # (id, properties that must stay at exit 0, edits)  -- behaviour-preserving refactors
 SILENT: List[Tuple[str, List[str], List[Any]]] = [
+    ("len-map-entry-without-serialising", CODEC, [(I, '                    sk = _serialize_single(1, meta.map_types[0], k)\n                    sv = _serialize_single(2, meta.map_types[1], v)\n                    size += _len_single(\n                        meta.number, meta.proto_type, sk + sv, serialize_empty=True\n                    )\n', '                    entry_size = _len_single(1, meta.map_types[0], k)\n                    entry_size += _len_single(2, meta.map_types[1], v)\n                    size += (\n                        size_varint((meta.number << 3) | 2)\n                        + size_varint(entry_size)\n                        + entry_size\n                    )\n')]),
     ("constants-as-tuples", CODEC + ["C04", "C05"], [(I, "FIXED_TYPES = [\n    TYPE_FLOAT,\n    TYPE_DOUBLE,\n    TYPE_FIXED32,\n    TYPE_SFIXED32,\n    TYPE_FIXED64,\n    TYPE_SFIXED64,\n]", "FIXED_TYPES = (\n    TYPE_FLOAT,\n    TYPE_DOUBLE,\n    TYPE_FIXED32,\n    TYPE_SFIXED32,\n    TYPE_FIXED64,\n    TYPE_SFIXED64,\n)"),
                                                      (I, "WIRE_FIXED_32_TYPES = [TYPE_FLOAT, TYPE_FIXED32, TYPE_SFIXED32]", "WIRE_FIXED_32_TYPES = frozenset({TYPE_FLOAT, TYPE_FIXED32, TYPE_SFIXED32})"),
                                                      (I, "INT_64_TYPES = [TYPE_INT64, TYPE_UINT64, TYPE_SINT64, TYPE_FIXED64, TYPE_SFIXED64]", "INT_64_TYPES = (TYPE_SFIXED64, TYPE_INT64, TYPE_UINT64, TYPE_SINT64, TYPE_FIXED64)")]),
